@@ -230,9 +230,10 @@ theorem render_eq_closed' (cfg : Cfg) (inp : Input) : render cfg inp = renderClo
   rw [h0, h]
   simp [Buf.entries, doFlush]
 
-/-- what the verbose messages (`v(msg, write_now=True)`) put on stdout: one write each — the message at level `info`, an empty buffer above -/
+/-- what the verbose messages (`v(msg, write_now=True)`) put on stdout: one write each when verbose (outside JSON mode) or debug is on and
+    the level is `info`; nothing otherwise (a message the level drops is not flushed) -/
 def vWrites (cfg : Cfg) (vmsgs : List Str) : List (List Str) :=
-  if cfg.verbose || cfg.debug then vmsgs.map (fun m => if passes cfg.level .info false then [m] else []) else []
+  if ((cfg.verbose && !cfg.json) || cfg.debug) && passes cfg.level .info false then vmsgs.map (fun m => [m]) else []
 
 theorem exec_vmsgs (cfg : Cfg) (vmsgs : List Str) (o : List (List Str)) :
     exec cfg (vmsgs.map (fun m => Op.v m true)) ⟨[], [], false, true, o, none⟩ = ⟨[], [], false, true, o ++ vWrites cfg vmsgs, none⟩ := by
@@ -240,18 +241,21 @@ theorem exec_vmsgs (cfg : Cfg) (vmsgs : List Str) (o : List (List Str)) :
   | nil => simp [exec_nil, vWrites]
   | cons m rest ih =>
     rw [List.map_cons, exec_cons]
-    by_cases hv : (cfg.verbose || cfg.debug) = true
+    by_cases hv : ((cfg.verbose && !cfg.json) || cfg.debug) = true
     · by_cases hp : passes cfg.level .info false = true
       · have hs : stepG cfg ⟨[], [], false, true, o, none⟩ (Op.v m true) = ⟨[], [], false, true, o ++ [[m]], none⟩ := by
-          simp [stepG, step, hv, doPrint, hp, doWrite, doFlush, paint, colorOn]
+          simp only [stepG, step, hv, hp]
+          simp [doPrint, hp, doWrite, doFlush, paint, colorOn]
         rw [hs, ih]; simp [vWrites, hv, hp]
       · simp only [Bool.not_eq_true] at hp
-        have hs : stepG cfg ⟨[], [], false, true, o, none⟩ (Op.v m true) = ⟨[], [], false, true, o ++ [[]], none⟩ := by
-          simp [stepG, step, hv, doPrint, hp, doWrite, doFlush]
-        rw [hs, ih]; simp [vWrites, hv, hp]
+        have hs : stepG cfg ⟨[], [], false, true, o, none⟩ (Op.v m true) = ⟨[], [], false, true, o, none⟩ := by
+          simp only [stepG, step, hv, hp]
+          simp [doPrint, hp]
+        rw [hs, ih]; simp [vWrites, hp]
     · simp only [Bool.not_eq_true] at hv
       have hs : stepG cfg ⟨[], [], false, true, o, none⟩ (Op.v m true) = ⟨[], [], false, true, o, none⟩ := by
-        simp [stepG, step, hv]
+        simp only [stepG, step, hv]
+        simp
       rw [hs, ih]; simp [vWrites, hv]
 
 theorem stdoutOf_eq (cfg : Cfg) (vmsgs : List Str) (inp : Input) : stdoutOf cfg vmsgs inp = vWrites cfg vmsgs ++ [renderClosed cfg inp] := by
